@@ -62,6 +62,9 @@ def run_case(spec, ctx):
     cols = list(df.columns)
     where = {'config': spec['config'], 'corr': t['corr'], 'd': len(cols), 'marginals': t['marginals'], 'names': t['names']}
     model = mv.build_model(spec['config'], cols, rng, random_state=None)
+    if spec['seed'] % 2:
+        mv.give_past(model, df, rng)
+        where['refitted'] = True
     np.random.seed(spec['seed'] % (2 ** 31))
     ok, exc = ctx.call(model.fit, df.copy())
     if not ok:
